@@ -775,7 +775,7 @@ Fixpoint kvLoop (keys : list string) (members : list (string * json)) (id : Z) (
       let value := match lookup k members with Some x => x | None => JNull end in
       let tag := next_tag s in
       let obj := JObj tag [("id", JNum (NInt id)); ("key", JStr k); ("value", value)]%string in
-      let s' := set_base (set_last_id (set_next_tag s (tag - 1)) (last_id s + 1)) tag (last_id s + 1) in
+      let s' := set_base (set_last_id (set_next_tag s (tag * 2)) (last_id s + 1)) tag (last_id s + 1) in
       do (r, s1) <- executeNextItem next obj found s';
       if st_failed (r_st r) then Ret (r, s1)
       else if st_ok (r_st r) && fnil found then Ret (mkr (r_st r) None (r_found r), s1)
@@ -947,7 +947,7 @@ End Body.
 Fixpoint run (L : ExecLib) (E : env) (fuel : nat) : req -> st -> outcome (ans * st) :=
   match fuel with
   | O => fun _ _ => OutOfFuel
-  | S k => body L E (run L E k)
+  | S k => fun r s => body L E (fun r' s' => run L E k r' s') r s   (* eta-expanded so that extraction unfolds it on demand *)
   end.
 
 (* ---------- exec.go: entry points ---------- *)
@@ -956,14 +956,15 @@ Record opts := mkopts {
   o_vars_tag : Z;
   o_silent : bool;
   o_useTZ : bool;
-  o_cancel_at : option nat
+  o_cancel_at : option nat;
+  o_next_tag : Z                   (* identity given to the first object keyvalue() allocates; later ones double it *)
 }.
 
 Definition mkEnv (p : path) (doc : json) (o : opts) : env :=
   mkenv (p_lax p) doc (o_vars o) (o_vars_tag o) (o_useTZ o) (o_cancel_at o).
 
 Definition newExec (p : path) (doc : json) (o : opts) : st :=
-  mkst doc (-1) (p_lax p) (negb (o_silent o)) 0 0 1 O (-1).
+  mkst doc (-1) (p_lax p) (negb (o_silent o)) 0 0 1 O (o_next_tag o).
 
 (* query() *)
 Definition query (L : ExecLib) (fuel : nat) (p : path) (doc : json) (o : opts) (vals : found_t) : outcome (resp * st) :=
